@@ -1037,7 +1037,10 @@ func callBuiltin(caller *frame, callpos token.Pos, fn *ssa.Builtin, args []value
 		case *omap:
 			m.clear()
 		case []value:
-			panic(unsupported("clear(slice)"))
+			et := fn.Type().(*types.Signature).Params().At(0).Type().Underlying().(*types.Slice).Elem()
+			for k := range m {
+				m[k] = zero(et)
+			}
 		}
 		return nil
 
